@@ -176,3 +176,171 @@ package rlwe
 //@ afunc KeyGenerator.GenEvaluationKeyNew
 //@   trusted this precondition IS the confinement clause of C18: a key whose security rests on a sparse secret (the output key) is generated at the smallest modulus
 //@   requires implies(sparsekey(skOutput), nq(kgen) == 1 && np(kgen) == 1)
+
+// ---------------------------------------------------------------------------------------------
+// Serialization, count level (property C08).  For every serializable type: WriteTo reports, on
+// success, exactly the number of bytes the value announces (announced(x): the result of running
+// x.BinarySize() on the same state) and leaves nothing unflushed in the buffered writer
+// (pending(w) == 0); ReadFrom reports, on success, exactly the announced size of the object it
+// rebuilt, whatever the receiver held before.  bsize(x) is the abstract announced size used at
+// call sites.  `nilable`: optional pointer fields of the inputs may be nil.
+// ---------------------------------------------------------------------------------------------
+
+//@ afunc Element.BinarySize
+//@   trusted definition: bsize(x) is what x.BinarySize() returns, assumed to be a function of the contents of x
+//@   ensures result == bsize(op) && 0 <= result
+
+//@ afunc Element.WriteTo
+//@   property C08
+//@   nilable
+//@   gset pending(w) = *
+//@   ensures implies(isnil(err), n == announced(op))
+//@   ensures implies(isnil(err), pending(w) == 0)
+
+//@ afunc Element.ReadFrom
+//@   property C08
+//@   nilable
+//@   havoc op
+//@   ensures implies(isnil(err), n == announced(op))
+
+//@ afunc EvaluationKey.BinarySize
+//@   trusted definition: bsize(x) is what x.BinarySize() returns, assumed to be a function of the contents of x
+//@   ensures result == bsize(evk) && 0 <= result
+
+//@ afunc EvaluationKey.WriteTo
+//@   property C08
+//@   nilable
+//@   gset pending(w) = *
+//@   ensures implies(isnil(err), n == announced(evk))
+//@   ensures implies(isnil(err), pending(w) == 0)
+
+//@ afunc EvaluationKey.ReadFrom
+//@   property C08
+//@   nilable
+//@   havoc evk
+//@   ensures implies(isnil(err), n == announced(evk))
+
+//@ afunc GadgetCiphertext.BinarySize
+//@   trusted definition: bsize(x) is what x.BinarySize() returns, assumed to be a function of the contents of x
+//@   ensures result == bsize(ct) && 0 <= result
+
+//@ afunc GadgetCiphertext.WriteTo
+//@   property C08
+//@   nilable
+//@   gset pending(w) = *
+//@   ensures implies(isnil(err), n == announced(ct))
+//@   ensures implies(isnil(err), pending(w) == 0)
+
+//@ afunc GadgetCiphertext.ReadFrom
+//@   property C08
+//@   nilable
+//@   havoc ct
+//@   ensures implies(isnil(err), n == announced(ct))
+
+//@ afunc GaloisKey.BinarySize
+//@   trusted definition: bsize(x) is what x.BinarySize() returns, assumed to be a function of the contents of x
+//@   ensures result == bsize(gk) && 0 <= result
+
+//@ afunc GaloisKey.WriteTo
+//@   property C08
+//@   nilable
+//@   gset pending(w) = *
+//@   ensures implies(isnil(err), n == announced(gk))
+//@   ensures implies(isnil(err), pending(w) == 0)
+
+//@ afunc GaloisKey.ReadFrom
+//@   property C08
+//@   nilable
+//@   havoc gk
+//@   ensures implies(isnil(err), n == announced(gk))
+
+//@ afunc MemEvaluationKeySet.BinarySize
+//@   trusted definition: bsize(x) is what x.BinarySize() returns, assumed to be a function of the contents of x
+//@   ensures result == bsize(evk) && 0 <= result
+
+//@ afunc MemEvaluationKeySet.WriteTo
+//@   property C08
+//@   nilable
+//@   gset pending(w) = *
+//@   ensures implies(isnil(err), n == announced(evk))
+//@   ensures implies(isnil(err), pending(w) == 0)
+
+//@ afunc MemEvaluationKeySet.ReadFrom
+//@   property C08
+//@   nilable
+//@   havoc evk
+//@   ensures implies(isnil(err), n == announced(evk))
+
+//@ afunc PublicKey.BinarySize
+//@   trusted definition: bsize(x) is what x.BinarySize() returns, assumed to be a function of the contents of x
+//@   ensures result == bsize(p) && 0 <= result
+
+//@ afunc PublicKey.WriteTo
+//@   property C08
+//@   nilable
+//@   gset pending(w) = *
+//@   ensures implies(isnil(err), n == announced(p))
+//@   ensures implies(isnil(err), pending(w) == 0)
+
+//@ afunc PublicKey.ReadFrom
+//@   property C08
+//@   nilable
+//@   havoc p
+//@   ensures implies(isnil(err), n == announced(p))
+
+//@ afunc SecretKey.BinarySize
+//@   trusted definition: bsize(x) is what x.BinarySize() returns, assumed to be a function of the contents of x
+//@   ensures result == bsize(sk) && 0 <= result
+
+//@ afunc SecretKey.WriteTo
+//@   property C08
+//@   nilable
+//@   gset pending(w) = *
+//@   ensures implies(isnil(err), n == announced(sk))
+//@   ensures implies(isnil(err), pending(w) == 0)
+
+//@ afunc SecretKey.ReadFrom
+//@   property C08
+//@   nilable
+//@   havoc sk
+//@   ensures implies(isnil(err), n == announced(sk))
+
+// The metadata blocks are JSON documents of constant announced size (their BinarySize methods are
+// executed as they are).  The length of what encoding/json produces is outside the reach of the
+// contracts: the writers are assumed to write the announced size; the readers are verified.
+//@ afunc MetaData.WriteTo
+//@   trusted JSON encoding: assumed to produce exactly the announced number of bytes
+//@   gset pending(w) = *
+//@   ensures implies(isnil(result1), result0 == announced(m))
+
+//@ afunc MetaData.ReadFrom
+//@   property C08
+//@   havoc m
+//@   ensures implies(isnil(result1), result0 == announced(m))
+
+//@ afunc PlaintextMetaData.WriteTo
+//@   trusted JSON encoding: assumed to produce exactly the announced number of bytes
+//@   gset pending(w) = *
+//@   ensures implies(isnil(result1), result0 == announced(m))
+
+//@ afunc PlaintextMetaData.ReadFrom
+//@   property C08
+//@   havoc m
+//@   ensures implies(isnil(result1), result0 == announced(m))
+
+//@ afunc CiphertextMetaData.WriteTo
+//@   trusted JSON encoding: assumed to produce exactly the announced number of bytes
+//@   gset pending(w) = *
+//@   ensures implies(isnil(result1), result0 == announced(m))
+
+//@ afunc CiphertextMetaData.ReadFrom
+//@   property C08
+//@   havoc m
+//@   ensures implies(isnil(result1), result0 == announced(m))
+
+// Plaintext embeds Element[ring.Poly]; its own ReadFrom re-binds the convenience field
+//@ afunc Plaintext.ReadFrom
+//@   property C08
+//@   nilable
+//@   havoc pt
+//@   ensures implies(isnil(err), n == announced(pt))
